@@ -356,9 +356,13 @@ def rule_seven_bit(ctx, rep):
     # process_utf8's two callers and their conditions are decided in C02 (utf8 rule); re-state the reachability here
     facts = ctx.configs["default"]
     adv = facts.body("anstyle_parse", "anstyle_parse::Parser::<C>::advance")
-    sites = hir.visit_with_conds(adv["hir"], lambda x: hir.is_call(x, "anstyle_parse::Parser::<C>::process_utf8"))
-    ok = len(sites) == 1 and any(f.get("kind") == "if" and f["val"] and "Utf8" in hirpp.expr(f["expr"]) for f in sites[0][1])
-    rep.check(ok, "seven-bit", adv["path"], "process_utf8-only-in-state-Utf8", "", loc(adv))
+    from rules import C02
+    try:
+        cases = C02.advance_cases(facts)
+        ok = all(any(c_[0] == "process_utf8" for c_ in cases[st][0]) == (st == "Utf8") for st in vt500.STATES)
+    except Unrecognised:
+        ok = False
+    rep.check(ok, "seven-bit", adv["path"], "process_utf8-only-in-state-Utf8", "advance() evaluated once per state: process_utf8 is called in state Utf8 and in no other", loc(adv))
     pa = facts.body("anstyle_parse", "anstyle_parse::Parser::<C>::perform_action")
     sites = hir.visit_with_conds(pa["hir"], lambda x: hir.is_call(x, "anstyle_parse::Parser::<C>::process_utf8"))
     ok = len(sites) == 1 and any(f.get("kind") == "arm" and hir.pat_path(f["pat"]) == cp.ACTION + "::BeginUtf8" for f in sites[0][1])
